@@ -164,6 +164,25 @@ def entity_of(spec):
     return idp_entity(spec["name"]) if spec["kind"] == "idp" else sp_entity(spec)
 
 
+class SameCertRoller(object):
+    """`cert_handler_extra_class` of an IdP that rolls its signing certificate per signed answer: deterministic, it
+    hands out the configured pair again (as text: CertHandler.update_cert writes it to the tmp files in text mode)."""
+
+    def use_generate_cert_func(self):
+        return True
+
+    def use_validate_cert_func(self):
+        return False
+
+    def generate_cert(self, generate_cert_info, root_cert_string, root_key_string):
+        def _t(s):
+            return s.decode("ascii") if isinstance(s, bytes) else s
+        return _t(root_cert_string), _t(root_key_string)
+
+    def __deepcopy__(self, memo):
+        return self
+
+
 def base_config(spec):
     if spec["kind"] == "idp":
         ep = idp_endpoints(spec["name"])
@@ -267,6 +286,14 @@ def base_config(spec):
     if spec.get("md_key_usage"):
         cnf["metadata_key_usage"] = spec["md_key_usage"]
     cnf["xmlsec_binary"] = seams.FAKE_BIN
+    if spec["kind"] == "idp" and spec.get("rolling_cert"):
+        import tempfile
+        base_ = os.path.join(tempfile.gettempdir(), "roll-%d-%s" % (os.getpid(), spec["name"]))
+        cnf["generate_cert_info"] = {"cn": "%s.sim.example" % spec["name"], "country_code": "se", "state": "ac",
+                                     "city": "Umea", "organization": "sim", "organization_unit": "roll"}
+        cnf["tmp_cert_file"] = base_ + ".crt"
+        cnf["tmp_key_file"] = base_ + ".key"
+        cnf["cert_handler_extra_class"] = SameCertRoller()
     if spec.get("slack") is not None:
         cnf["accepted_time_diff"] = spec["slack"]
     if spec.get("only_md_keys") is not None:
